@@ -1,1 +1,400 @@
-pub fn run(_seed: u64, _out: &str, _args: &[String]) -> bool { true }
+//! Layer B correspondence: the real crate driven ONE ATOMIC ACTION at a time (every thread parks at every
+//! schedule point of its stop list), under PRNG-chosen interleavings of 2-3 client threads with the command
+//! worker, the sweeper and the consumer. After every action the complete observable state and every thread's
+//! position are printed in the vocabulary of `CachedModel/LayerB.lean`.
+use std::io::Write;
+use std::panic::{catch_unwind, AssertUnwindSafe};
+use std::sync::atomic::{AtomicBool, AtomicU64, Ordering};
+use std::sync::{Arc, Mutex};
+use std::time::{Duration, SystemTime, UNIX_EPOCH};
+
+use tinylfu_cached::cache::cached::CacheD;
+use tinylfu_cached::cache::command::acknowledgement::CommandAcknowledgement;
+use tinylfu_cached::cache::config::ConfigBuilder;
+use tinylfu_cached::cache::put_or_update::PutOrUpdateRequestBuilder;
+use tinylfu_cached::cache::verif;
+
+use crate::engine::{classify_panic, duration_of, hash_of, panic_message, status_str, Cfg, ManualClock};
+use crate::{Rng, Sink};
+
+type Cache = CacheD<u64, u64>;
+const TIMEOUT: Duration = Duration::from_secs(8);
+
+const WORKER_STOPS: &[&str] = &["worker.recv", "store.present", "wu.space", "kw.insert", "wu.add", "sample.init", "kw.remove", "wu.sub",
+    "store.remove", "sample.fill", "store.put", "ttl.put", "kw.update", "ttl.delete", "worker.drain"];
+const SWEEPER_STOPS: &[&str] = &["sweep.begin", "sweep.entry", "kw.remove", "wu.sub", "store.remove", "sweep.end"];
+const CONSUMER_STOPS: &[&str] = &["consumer.recv"];
+const CLIENT_STOPS: &[&str] = &["client.idle", "store.present", "id.next", "cmd.send", "delete.mark", "store.get", "pool.add", "wu.read",
+    "upsert.update", "upsert.weight_of", "ttl.put", "ttl.delete", "ttl.update.remove", "ttl.update.insert"];
+
+#[derive(Clone, Debug)]
+enum Req {
+    PutW(u64, u64, i64, Option<u128>),
+    Delete(u64),
+    Get(u64),
+    Weight,
+    Upsert(u64, Option<u64>, Option<i64>, Option<u128>, bool),
+}
+
+fn opt<T: std::fmt::Display>(value: &Option<T>) -> String { value.as_ref().map(|v| v.to_string()).unwrap_or("-".to_string()) }
+
+impl Req {
+    fn text(&self) -> String {
+        match self {
+            Req::PutW(k, v, w, t) => format!("putw {} {} {} {}", k, v, w, opt(t)),
+            Req::Delete(k) => format!("delete {}", k),
+            Req::Get(k) => format!("get {}", k),
+            Req::Weight => "weight".to_string(),
+            Req::Upsert(k, v, w, t, rm) => format!("upsert {} {} {} {} {}", k, opt(v), opt(w), opt(t), *rm as u8),
+        }
+    }
+}
+
+enum CallOut { Send(Result<Arc<CommandAcknowledgement>, String>), Value(Option<u64>), Weight(i64) }
+
+struct Slot {
+    job: Mutex<Option<Box<dyn FnOnce(&Cache) -> CallOut + Send>>>,
+    result: Mutex<Option<Result<CallOut, String>>>,
+    exit: AtomicBool,
+}
+
+struct World {
+    cfg: Cfg,
+    cache: Arc<Cache>,
+    clock: ManualClock,
+    slots: Vec<Arc<Slot>>,
+    threads: Vec<std::thread::JoinHandle<()>>,
+    acks: Vec<Arc<CommandAcknowledgement>>,
+    pending_job: Vec<bool>,          // a request was issued and its first action has not run yet
+    deferred_pool: Vec<Option<String>>,
+    buf_chan_cap: usize,
+    seeds: [u64; 4],
+    sample_size: usize,
+    ttl_entry: i64,
+}
+
+fn ns(time: &SystemTime) -> u128 { time.duration_since(UNIX_EPOCH).map(|d| d.as_nanos()).unwrap_or(0) }
+
+impl World {
+    fn new(cfg: Cfg) -> Result<World, String> {
+        verif::reset(true, true);
+        verif::set_default_stops("worker", WORKER_STOPS);
+        verif::set_default_stops("sweeper", SWEEPER_STOPS);
+        verif::set_default_stops("consumer", CONSUMER_STOPS);
+        for client in 0..cfg.clients { verif::set_default_stops(&format!("c{}", client), CLIENT_STOPS); }
+        let clock = ManualClock(Arc::new(AtomicU64::new(cfg.now)));
+        let (hash_mode, wbase, wmod) = (cfg.hash, cfg.wbase, cfg.wmod);
+        let (sample_size, buf_chan_cap, ttl_entry) = Cache::verif_constants();
+        let ttl_entry_i = ttl_entry as i64;
+        let config = ConfigBuilder::new(cfg.counters, 16, cfg.max)
+            .key_hash_fn(Box::new(move |key: &u64| hash_of(hash_mode, *key)))
+            .weight_calculation_fn(Box::new(move |_k: &u64, v: &u64, ttl: bool| wbase + (*v % wmod) as i64 + if ttl { ttl_entry_i } else { 0 }))
+            .clock(Box::new(clock.clone()))
+            .access_pool_size(cfg.pool).access_buffer_size(cfg.buf).command_buffer_size(cfg.cmdcap).shards(cfg.shards)
+            .ttl_tick_duration(Duration::from_millis(1)).build();
+        let cache = Arc::new(CacheD::new(config));
+        for role in ["worker", "sweeper", "consumer"] {
+            if verif::wait_settled(role, 0, TIMEOUT).is_none() { return Err(format!("{} did not start", role)); }
+        }
+        let mut slots = Vec::new();
+        let mut threads = Vec::new();
+        for client in 0..cfg.clients {
+            let slot = Arc::new(Slot { job: Mutex::new(None), result: Mutex::new(None), exit: AtomicBool::new(false) });
+            let (slot_t, cache_t, role) = (slot.clone(), cache.clone(), format!("c{}", client));
+            let role_t = role.clone();
+            threads.push(std::thread::Builder::new().name(role.clone()).spawn(move || {
+                let _registration = verif::register(&role_t);
+                loop {
+                    verif::point("client.idle");
+                    if slot_t.exit.load(Ordering::SeqCst) { break; }
+                    let job = slot_t.job.lock().unwrap().take();
+                    if let Some(job) = job {
+                        let result = catch_unwind(AssertUnwindSafe(|| job(&cache_t))).map_err(panic_message);
+                        *slot_t.result.lock().unwrap() = Some(result);
+                    } else { std::thread::yield_now(); }
+                }
+            }).unwrap());
+            if verif::wait_settled(&role, 0, TIMEOUT).is_none() { return Err(format!("{} did not park", role)); }
+            slots.push(slot);
+        }
+        let seeds = cache.verif_snapshot().sketch.seeds;
+        let clients = cfg.clients;
+        Ok(World { cfg, cache, clock, slots, threads, acks: Vec::new(), pending_job: vec![false; clients], deferred_pool: vec![None; clients],
+                   buf_chan_cap, seeds, sample_size, ttl_entry: ttl_entry as i64 })
+    }
+
+    fn cfg_line(&self) -> String {
+        format!("BC max={} shards={} cmdcap={} pool={} buf={} counters={} sample={} bufchan={} ttlentry={} hash={} wbase={} wmod={} now={} seeds={},{},{},{} clients={}",
+                self.cfg.max, self.cfg.shards, self.cfg.cmdcap, self.cfg.pool, self.cfg.buf, self.cfg.counters, self.sample_size, self.buf_chan_cap, self.ttl_entry,
+                self.cfg.hash, self.cfg.wbase, self.cfg.wmod, self.cfg.now, self.seeds[0], self.seeds[1], self.seeds[2], self.seeds[3], self.cfg.clients)
+    }
+
+    fn at(role: &str) -> String {
+        match verif::view(role) {
+            Some(view) => if view.finished { "finished".to_string() } else { view.parked_at.unwrap_or("running").to_string() },
+            None => "unknown".to_string(),
+        }
+    }
+
+    fn pcs(&self) -> String {
+        let clients = (0..self.cfg.clients).map(|c| format!("c{}={}", c, Self::at(&format!("c{}", c)))).collect::<Vec<_>>().join(" ");
+        format!("w={} s={} {}", Self::at("worker"), Self::at("sweeper"), clients)
+    }
+
+    fn held_by_other(role: &str, lock: &str) -> bool {
+        verif::holds().iter().any(|(name, owner)| name == lock && owner != role)
+    }
+
+    /// Is the action thread `role` is parked before enabled? (Mirror of the enabledness conditions of LayerB.lean.)
+    fn enabled(&self, role: &str) -> bool {
+        let view = match verif::view(role) { Some(view) => view, None => return false };
+        if view.finished { return false; }
+        let at = match view.parked_at { Some(at) => at, None => return false };
+        if let Some(need) = &view.need {
+            if need == "wu" || need.starts_with("ttl:") { if Self::held_by_other(role, need) { return false; } }
+            if need == "cmdq.room" { return !(verif::view("worker").map(|w| !w.finished).unwrap_or(false)) || self.cache.verif_command_queue_len() < self.cfg.cmdcap; }
+            if need == "cmdq.item" || need == "cmdq.item_or_closed" { return self.cache.verif_command_queue_len() > 0; }
+        }
+        match at {
+            "consumer.recv" => self.cache.verif_buffer_queue_len() > 0,
+            "client.idle" => role.starts_with('c') && self.pending_job[role[1..].parse::<usize>().unwrap_or(0)],
+            "kw.update" => !Self::held_by_other(role, "wu"),
+            _ => true,
+        }
+    }
+
+    /// Grants `role` one action. Returns the taps of that action.
+    fn act(&mut self, role: &str) -> Result<Vec<String>, String> {
+        let _ = verif::drain_taps();
+        let seq = verif::grant(role).ok_or_else(|| format!("{} is not parked", role))?;
+        verif::wait_settled(role, seq, TIMEOUT).ok_or_else(|| format!("{} did not reach its next schedule point after leaving {}", role, Self::at(role)))?;
+        Ok(verif::drain_taps())
+    }
+
+    fn snapshot(&self) -> String {
+        let (snap, total, shards) = self.cache.verif_try_snapshot();
+        let mut store = snap.store.clone();
+        store.sort_by_key(|entry| entry.0);
+        let store_text = store.iter().map(|(k, v, id, expiry, soft)| format!("{}:{}:{}:{}:{}", k, v, id, opt(&expiry.as_ref().map(ns)), *soft as u8)).collect::<Vec<_>>().join(",");
+        let mut kw = snap.key_weights.clone();
+        kw.sort_by_key(|entry| entry.0);
+        let kw_text = kw.iter().map(|(id, key, hash, weight)| format!("{}:{}:{}:{}", id, key, hash, weight)).collect::<Vec<_>>().join(",");
+        let mut ttl: Vec<(usize, u64, u128)> = Vec::new();
+        for (shard, entries) in shards.iter().enumerate() {
+            if let Some(entries) = entries { for (id, expiry) in entries { ttl.push((shard, *id, ns(expiry))); } }
+        }
+        ttl.sort();
+        let ttl_text = ttl.iter().map(|(shard, id, expiry)| format!("{}:{}:{}", shard, id, expiry)).collect::<Vec<_>>().join(",");
+        let acks_text = self.acks.iter().map(|ack| { let (done, status, _) = ack.verif_peek(); if done { status_str(&status) } else { "pending".to_string() } }).collect::<Vec<_>>().join(",");
+        let rows_text = snap.sketch.rows.iter().map(|row| row.iter().map(|byte| format!("{:02x}", byte)).collect::<String>()).collect::<Vec<_>>().join(";");
+        let pool_text = snap.pool_buffers.iter().map(|buffer| buffer.iter().map(|h| h.to_string()).collect::<Vec<_>>().join(".")).collect::<Vec<_>>().join("|");
+        let alive = |role: &str| verif::view(role).map(|view| !view.finished).unwrap_or(false);
+        format!("now={} store=[{}] kw=[{}] wu={} ttl=[{}] q={} acks=[{}] incs={} rows={} pool={} bufq={} stats={} shut={} worker={} consumer={} sweeper={}",
+            self.clock.0.load(Ordering::SeqCst), store_text, kw_text, total.map(|t| t.to_string()).unwrap_or("locked".to_string()), ttl_text,
+            if alive("worker") { snap.command_queue_len.to_string() } else { "-".to_string() }, acks_text, snap.sketch.total_increments, rows_text, pool_text,
+            if alive("consumer") { snap.buffer_queue_len.to_string() } else { "-".to_string() },
+            snap.stats.iter().map(|v| v.to_string()).collect::<Vec<_>>().join(","), snap.is_shutting_down as u8,
+            alive("worker") as u8, alive("consumer") as u8, alive("sweeper") as u8)
+    }
+
+    fn issue(&mut self, client: usize, req: &Req) {
+        let req = req.clone();
+        *self.slots[client].job.lock().unwrap() = Some(Box::new(move |cache: &Cache| match req {
+            Req::PutW(k, v, w, None) => CallOut::Send(cache.put_with_weight(k, v, w).map_err(|e| e.to_string())),
+            Req::PutW(k, v, w, Some(t)) => CallOut::Send(cache.put_with_weight_and_ttl(k, v, w, duration_of(t)).map_err(|e| e.to_string())),
+            Req::Delete(k) => CallOut::Send(cache.delete(k).map_err(|e| e.to_string())),
+            Req::Get(k) => CallOut::Value(cache.get(&k)),
+            Req::Weight => CallOut::Weight(cache.total_weight_used()),
+            Req::Upsert(k, v, w, t, rm) => {
+                let mut builder = PutOrUpdateRequestBuilder::new(k);
+                if let Some(v) = v { builder = builder.value(v); }
+                if let Some(w) = w { builder = builder.weight(w); }
+                if let Some(t) = t { builder = builder.time_to_live(duration_of(t)); }
+                if rm { builder = builder.remove_time_to_live(); }
+                CallOut::Send(cache.put_or_update(builder.build()).map_err(|e| e.to_string()))
+            }
+        }));
+        self.pending_job[client] = true;
+    }
+
+    /// the result of a call that has just completed on client `c`, rendered like the model's `Out`
+    fn take_result(&mut self, client: usize) -> Option<String> {
+        let result = self.slots[client].result.lock().unwrap().take()?;
+        Some(match result {
+            Err(message) => format!("panic {}", classify_panic(&message)),
+            Ok(CallOut::Send(Err(_))) => "err".to_string(),
+            Ok(CallOut::Send(Ok(ack))) => {
+                let (done, status, _) = ack.verif_peek();
+                self.acks.push(ack);
+                format!("ack {} {}", self.acks.len() - 1, if done { status_str(&status) } else { "pending".to_string() })
+            }
+            Ok(CallOut::Value(value)) => format!("value {}", opt(&value)),
+            Ok(CallOut::Weight(weight)) => format!("weight {}", weight),
+        })
+    }
+
+    fn finish(self) -> Result<(), String> {
+        for slot in &self.slots { slot.exit.store(true, Ordering::SeqCst); }
+        verif::release_all();
+        let World { cache, threads, acks, .. } = self;
+        let done = Arc::new(AtomicBool::new(false));
+        { let (cache, done) = (cache.clone(), done.clone()); std::thread::spawn(move || { cache.shutdown(); done.store(true, Ordering::SeqCst); }); }
+        let deadline = std::time::Instant::now() + TIMEOUT;
+        while !done.load(Ordering::SeqCst) && std::time::Instant::now() < deadline { std::thread::sleep(Duration::from_micros(200)); }
+        if !done.load(Ordering::SeqCst) { return Err("shutdown() at the end of the case did not return".to_string()); }
+        for thread in threads { let _ = thread.join(); }
+        drop(acks);
+        drop(cache);
+        for role in ["worker", "sweeper", "consumer"] {
+            let deadline = std::time::Instant::now() + TIMEOUT;
+            while verif::view(role).map(|view| !view.finished).unwrap_or(false) {
+                if std::time::Instant::now() > deadline { return Err(format!("{} did not exit", role)); }
+                std::thread::sleep(Duration::from_micros(200));
+            }
+        }
+        Ok(())
+    }
+}
+
+fn oracle_of(taps: &[String], deferred_pool: &mut Option<String>, is_client: bool) -> (String, Option<String>) {
+    let (mut dk, mut dkadd, mut ids, mut pops) = (vec![], vec![], vec![], vec![]);
+    let mut pool_now: Option<String> = None;
+    let mut visit = None;
+    for tap in taps {
+        let tokens: Vec<&str> = tap.split(' ').collect();
+        match tokens[0] {
+            "dk.has" => dk.push(if tokens[2] == "true" { "1" } else { "0" }.to_string()),
+            "dk.add" => dkadd.push(if tokens[2] == "true" { "1" } else { "0" }.to_string()),
+            "sample.init" | "sample.fill" => ids.push(tokens[1].to_string()),
+            "sample.pop" => pops.push(if tokens[1] == "none" { "-".to_string() } else { tokens[1].to_string() }),
+            "pool.idx" => pool_now = Some(tokens[1].to_string()),
+            "sweep.visit" => visit = Some(tokens[1].to_string()),
+            _ => {}
+        }
+    }
+    let mut oracle = String::new();
+    for (name, values) in [("dk", &dk), ("dkadd", &dkadd), ("ids", &ids), ("pops", &pops)] {
+        if !values.is_empty() { oracle.push_str(&format!(" {}={}", name, values.join(","))); }
+    }
+    if is_client {
+        // the buffer index is chosen (and tapped) just before the `pool.add` point: it belongs to the NEXT action of this client
+        if let Some(index) = deferred_pool.take() { oracle.push_str(&format!(" pool={}", index)); }
+        *deferred_pool = pool_now;
+    }
+    (oracle, visit)
+}
+
+pub fn run(seed: u64, out: &str, args: &[String]) -> bool {
+    let cases: u64 = args.iter().position(|a| a == "--cases").and_then(|i| args.get(i + 1)).and_then(|s| s.parse().ok()).unwrap_or(10);
+    let mut sink = Sink::new(out);
+    for case in 0..cases {
+        let case_seed = seed.wrapping_mul(1_000_003).wrapping_add(case);
+        let mut rng = Rng::new(case_seed ^ 0xB0B);
+        let max = rng.pick(&[6i64, 10, 20, 60]);
+        let cfg = Cfg {
+            max, shards: rng.pick(&[2usize, 2, 4]), cmdcap: rng.pick(&[1usize, 2, 4, 64]), pool: rng.pick(&[1usize, 2]), buf: rng.pick(&[1usize, 2, 3]),
+            counters: rng.pick(&[2u64, 3, 10, 16]), hash: rng.pick(&[0u64, 0, 1]), wbase: 1, wmod: rng.pick(&[1u64, 3]),
+            now: rng.pick(&[1_000u64 * 1_000_000_000, 1_000 * 1_000_000_000 + 999_999_999]), clients: rng.pick(&[2usize, 3]),
+        };
+        sink.both(&format!("# case conc seed={}", case_seed));
+        let mut world = match World::new(cfg.clone()) { Ok(world) => world, Err(why) => { sink.both(&format!("# engine-start-failed {}", why)); sink.flush(); return false; } };
+        writeln!(sink.input, "{}", world.cfg_line()).unwrap();
+        writeln!(sink.implementation, "R init | {} | {}", world.pcs(), world.snapshot()).unwrap();
+        let keys = rng.pick(&[2u64, 3, 4]);
+        let length = 60 + rng.below(240);
+        let mut next_value = 100u64;
+        let mut hang = None;
+        let mut step = 0;
+        let mut quiet_rounds = 0;
+        while hang.is_none() {
+            let winding_down = step >= length;
+            // candidate actions
+            let mut candidates: Vec<String> = Vec::new();
+            for role in ["worker", "sweeper", "consumer"] { if world.enabled(role) { candidates.push(role.to_string()); } }
+            for client in 0..cfg.clients { let role = format!("c{}", client); if world.enabled(&role) { candidates.push(role); } }
+            let idle: Vec<usize> = (0..cfg.clients).filter(|c| !world.pending_job[*c] && World::at(&format!("c{}", c)) == "client.idle").collect();
+            if winding_down {
+                // let everything that is in flight finish; the sweeper only if it is mid-sweep
+                candidates.retain(|role| role != "sweeper" || World::at("sweeper") != "sweep.begin");
+                if candidates.is_empty() { quiet_rounds += 1; if quiet_rounds > 1 { break; } }
+            }
+            let choice = if !winding_down && !idle.is_empty() && (candidates.is_empty() || rng.chance(25)) {
+                "issue".to_string()
+            } else if !winding_down && rng.chance(4) {
+                "advance".to_string()
+            } else if candidates.is_empty() {
+                if winding_down { continue; } else if idle.is_empty() { hang = Some("no thread is enabled and no client is idle".to_string()); continue; } else { "issue".to_string() }
+            } else {
+                // the sweeper ticks rarely unless it is in the middle of a sweep
+                let mut pick = rng.pick(&candidates);
+                if pick == "sweeper" && World::at("sweeper") == "sweep.begin" && !rng.chance(20) { pick = rng.pick(&candidates); }
+                pick
+            };
+            step += 1;
+            let (line, taps, finished_client): (String, Vec<String>, Option<usize>) = match choice.as_str() {
+                "issue" => {
+                    let client = rng.pick(&idle);
+                    let key = rng.below(keys);
+                    next_value += 1;
+                    let weight = if rng.chance(70) { 1 + rng.below(4) as i64 } else { rng.pick(&[1i64, max / 2, max - 1, max, max + 1]).max(1) };
+                    let ttl = if rng.chance(40) { Some(rng.pick(&[1u128, 1_000_000_000, 2_000_000_000, 5_000_000_000])) } else { None };
+                    let req = match rng.below(10) {
+                        0 | 1 | 2 => Req::PutW(key, next_value, weight, ttl),
+                        3 => Req::Delete(key),
+                        4 | 5 => Req::Get(key),
+                        6 => Req::Weight,
+                        _ => {
+                            let shape = rng.below(16);
+                            let value = if shape & 1 != 0 { Some(next_value) } else { None };
+                            let explicit = if shape & 2 != 0 { Some(weight) } else { None };
+                            let mut ttl2 = if shape & 4 != 0 { Some(rng.pick(&[1_000_000_000u128, 3_000_000_000])) } else { None };
+                            let mut remove = shape & 8 != 0;
+                            if ttl2.is_some() && remove { if rng.chance(50) { ttl2 = None } else { remove = false } }
+                            let value = if value.is_none() && explicit.is_none() && ttl2.is_none() && !remove { Some(next_value) } else { value };
+                            Req::Upsert(key, value.or(Some(next_value)), explicit, ttl2, remove)
+                        }
+                    };
+                    world.issue(client, &req);
+                    (format!("B issue {} {}", client, req.text()), vec![], None)
+                }
+                "advance" => {
+                    let delta = rng.pick(&[1u64, 999_999_999, 1_000_000_000, 2_000_000_000, 5_000_000_000]);
+                    world.clock.0.fetch_add(delta, Ordering::SeqCst);
+                    (format!("B advance {}", delta), vec![], None)
+                }
+                role => {
+                    let is_client = role.starts_with('c') && role != "consumer";
+                    if is_client { let c: usize = role[1..].parse().unwrap(); if World::at(role) == "client.idle" { world.pending_job[c] = false; } }
+                    match world.act(role) {
+                        Ok(taps) => {
+                            let name = if is_client { format!("client {}", &role[1..]) } else { role.to_string() };
+                            (format!("B {}", name), taps, if is_client { Some(role[1..].parse().unwrap()) } else { None })
+                        }
+                        Err(why) => { hang = Some(why); continue; }
+                    }
+                }
+            };
+            let (mut oracle, visit) = match finished_client {
+                Some(c) => { let mut deferred = world.deferred_pool[c].take(); let r = oracle_of(&taps, &mut deferred, true); world.deferred_pool[c] = deferred; r }
+                None => { let mut none = None; oracle_of(&taps, &mut none, false) }
+            };
+            if line == "B sweeper" { if let Some(id) = visit { oracle.push_str(&format!(" visit={}", id)); } }
+            let result = match finished_client {
+                Some(c) if World::at(&format!("c{}", c)) == "client.idle" => world.take_result(c).map(|r| format!("c{}:{}", c, r)).unwrap_or("-".to_string()),
+                _ => "-".to_string(),
+            };
+            writeln!(sink.input, "{}{}", line, oracle).unwrap();
+            writeln!(sink.implementation, "R {} | {} | {}", result, world.pcs(), world.snapshot()).unwrap();
+        }
+        if let Some(why) = hang {
+            sink.both(&format!("# hang {}", why.replace(' ', "_")));
+            sink.flush();
+            std::process::exit(3);
+        }
+        let panics: Vec<String> = std::mem::take(&mut *crate::PANIC_LOG.lock().unwrap());
+        for panic in panics { sink.both(&format!("# panic {}", panic)); }
+        if let Err(why) = world.finish() { sink.both(&format!("# hang at-finish {}", why.replace(' ', "_"))); sink.flush(); std::process::exit(3); }
+    }
+    sink.flush();
+    true
+}
